@@ -483,12 +483,23 @@ def finish(prop, tier, engine, agg, info, t0, coverage_extra, assumptions, rule,
     return 1 if n_viol else 0
 
 
+def _tmp_base():
+    """One scratch directory per check invocation (workers inherit it through the environment)."""
+    base = os.environ.get("CVSSSIM_TMP")
+    if not base:
+        base = os.path.join(OUT, "tmp", str(os.getpid()))
+        os.environ["CVSSSIM_TMP"] = base
+        os.environ["CVSSSIM_TMP_OWNER"] = str(os.getpid())
+    return base
+
+
 def cleanup_tmp():
-    d = os.path.join(OUT, "tmp", str(os.getpid()))
-    shutil.rmtree(d, ignore_errors=True)
+    base = os.environ.get("CVSSSIM_TMP")
+    if base and os.environ.get("CVSSSIM_TMP_OWNER") == str(os.getpid()):
+        shutil.rmtree(base, ignore_errors=True)
 
 
 def tmp_dir():
-    d = os.path.join(OUT, "tmp", str(os.getpid()))
+    d = os.path.join(_tmp_base(), str(os.getpid()))
     os.makedirs(d, exist_ok=True)
     return d
